@@ -240,6 +240,101 @@ def r16_3(prog, rep):
         rep.fail(rid, "refill/zero-count-ends-stream", f.loc(), "no dominating `!count` test before the fillers")
 
 
+def r16_4(prog, rep):
+    """shift() files a candidate under previous / same / next year in one of three sets; the fillers must emit the sets in chronological
+    order (previous, same, next year) and pair each set with the year offset shift() filed it under.  (Within one refill the final sort
+    hides a wrong order, but the held-back seed is the last candidate *written*, so the next refill would restart from the wrong date.)"""
+    rid = "R16.4"
+    from ..absw import eval_in
+    sh = prog.fn("shift", "evrrul.c")
+    # writer: slot as a function of (nu_y - y)
+    wslot = None
+    for b, i, x, line in sh.cfg.all_elems():
+        for nd in walk(sh.cfg.resolve(x)):
+            if nd.get("k") == "idx" and lv(strip_casts(nd["b"])) == "res":
+                ix = strip_casts(nd["i"])
+                names = {r_["n"] for r_ in walk(ix) if r_.get("k") == "ref"}
+                if {"nu_y", "y"} <= names:
+                    m = {}
+                    for off in (-1, 0, 1):
+                        m[off] = eval_in({"nu_y": 2000 + off, "y": 2000}, ix, sh)
+                    wslot = m
+    if not wslot or None in wslot.values():
+        raise AnalysisBroken("R16.4: cannot read the slot mapping of shift()")
+    n = 0
+    for fname in ("rrul_fill_yly", "rrul_fill_mly"):
+        f = prog.fn(fname, "evrrul.c")
+        cfg = f.cfg
+        # the emitted instant: {.y = y + E, ...}
+        offs = None
+        for b, i, x, line in cfg.all_elems():
+            for nd in walk(cfg.resolve(x)):
+                if nd.get("k") == "init" and "echs_instant" in (nd.get("t") or ""):
+                    for name, val in nd["fs"]:
+                        if name == "y" and val is not None:
+                            v = strip_casts(val)
+                            if v.get("k") == "bin" and v["op"] == "+" and lv(strip_casts(v["l"])) == "y":
+                                offs = (f.expand(v["r"]), nd.get("line", line))
+        slotx = None
+        for S in call_sites(f, "bi383_next"):
+            a = strip_casts(f.expand(cfg.resolve(S.node["a"][1])))
+            if a.get("k") == "un" and a["op"] == "&":
+                inner = strip_casts(a["e"])
+                if inner.get("k") == "idx" and lv(strip_casts(inner["b"])) == "cand":
+                    slotx = strip_casts(inner["i"])
+        if offs is None or slotx is None:
+            continue
+        # the loop variable both depend on: a local stepped by one with constant start and bound
+        cands = {r_["n"] for r_ in walk(offs[0]) if r_.get("k") == "ref" and r_.get("dk") == "local"} | \
+                {r_["n"] for r_ in walk(slotx) if r_.get("k") == "ref" and r_.get("dk") == "local"}
+        seq = None
+        for var in sorted(cands):
+            start = step = bound = None
+            for b, i, x, line in cfg.all_elems():
+                for l, kind, nn in writes(x):
+                    if lv(l) != var:
+                        continue
+                    if kind == "decl" and nn.get("init") is not None:
+                        start = const_eval(f, cfg.resolve(nn["init"]))
+                    elif kind == "incdec":
+                        step = 1 if "++" in nn["op"] else -1
+            for b in cfg.blocks:
+                c = cfg.cond(b)
+                if c is None:
+                    continue
+                for a in cond_atoms(c, True):
+                    if len(a) == 5 and a[1] == var and a[0] in ("<", "<=") and const_eval(f, a[4]) is not None:
+                        bound = const_eval(f, a[4]) - (1 if a[0] == "<" else 0)
+            if start is not None and step == 1 and bound is not None and 0 < bound - start < 8:
+                seq = (var, list(range(start, bound + 1)))
+        n += 1
+        key = "%s/candidate-sets-in-year-order" % fname
+        if seq is None:
+            rep.broken_("rule=R16.4 %s: cannot enumerate the loop over the candidate sets" % fname)
+            continue
+        var, vals = seq
+        got = []
+        for v in vals:
+            got.append((eval_in({var: v}, offs[0], f), eval_in({var: v}, slotx, f)))
+        # the offset is added to an unsigned year: -1 appears as 2^32 - 1
+        got = [((g[0] - (1 << 32)) if g[0] is not None and g[0] >= (1 << 31) else g[0], g[1]) for g in got]
+        offsets = [g[0] for g in got]
+        if None in offsets or any(g[1] is None for g in got):
+            rep.broken_("rule=R16.4 %s: year offset / slot not evaluable for %s in %s" % (fname, var, vals))
+            continue
+        if offsets != sorted(offsets) or sorted(offsets) != [-1, 0, 1]:
+            rep.fail(rid, key, f.loc(offs[1]),
+                     "the candidate sets are emitted for the year offsets %s in that order, not -1, 0, +1: the last instant written to the cache (the "
+                     "seed of the next refill) is not the latest one, so occurrences are re-emitted after a refill" % offsets)
+        elif any(wslot[o] != sl for o, sl in got):
+            rep.fail(rid, key, f.loc(offs[1]), "year offset and candidate set are mis-paired: shift() files offsets as %s, the filler reads %s" % (
+                wslot, {o: sl for o, sl in got}))
+        else:
+            rep.ok(rid, key, f.loc(offs[1]), "sets are emitted for offsets -1, 0, +1 from slots %s, as shift() files them" % [sl for o, sl in got])
+    if n < 2:
+        rep.broken_("rule=R16.4 expected the yearly and the monthly filler, found %d" % n)
+
+
 def run(prog, rep, tier, snap):
     rep.rule("R16.1", "sort after every reordering transformation of the cache", 1)
     rep.call(r16_1, prog, rep)
@@ -247,6 +342,8 @@ def run(prog, rep, tier, snap):
     rep.call(r16_2, prog, rep)
     rep.rule("R16.3", "COUNT accounting: clamp in every filler, decrement in refill", 9)
     rep.call(r16_3, prog, rep)
+    rep.rule("R16.4", "SHIFT candidate sets are emitted in year order and paired with the offsets shift() files them under", 2)
+    rep.call(r16_4, prog, rep)
     rep.rule("R09.1", "bounded occurrence-cache writes (shared with C09)", 10)
     rep.call(fillers.r09_1, prog, rep)
 READY = True
